@@ -22,11 +22,13 @@ namespace lq = embedded_pairing::lqibe;
 static int g_guard = 0;      // 0: malloc exact ; 1: end flush against a guard page ; 2: start flush after a guard page
 
 // ------------------------------------------------------------------ buffers
-struct Buf { uint8_t* p; size_t n; void* base; size_t maplen; };
+struct Buf { uint8_t* p; size_t n; void* base; size_t maplen; uint8_t* raw; };
+static size_t g_shift = 0;   // malloc mode: the buffer starts g_shift bytes into its block (still ends flush with the block), so that
+                             // embedded elements are seen at every alignment, not only at the offsets a 16-aligned malloc gives
 
 static Buf buf_alloc(size_t n) {
-    Buf b; b.n = n; b.base = NULL; b.maplen = 0;
-    if (!g_guard) { b.p = (uint8_t*) malloc(n ? n : 1); return b; }
+    Buf b; b.n = n; b.base = NULL; b.maplen = 0; b.raw = NULL;
+    if (!g_guard) { b.raw = (uint8_t*) malloc((n ? n : 1) + g_shift); b.p = b.raw + g_shift; return b; }
     size_t pg = (size_t) sysconf(_SC_PAGESIZE);
     size_t body = ((n + pg - 1) / pg) * pg;
     if (body == 0) body = pg;
@@ -40,7 +42,7 @@ static Buf buf_alloc(size_t n) {
     return b;
 }
 static void buf_free(Buf& b) {
-    if (b.base) munmap(b.base, b.maplen); else free(b.p);
+    if (b.base) munmap(b.base, b.maplen); else free(b.raw);
     b.p = NULL;
 }
 
@@ -320,7 +322,9 @@ static void cmd_gen(void) {
 static void cmd_unm(void) {
     int kind = kind_of(arg(1)); bool c = argi(2) != 0, checked = argi(3) != 0;
     size_t n; uint8_t* raw = unhex_var(arg(4), &n);
+    g_shift = g_ntok > 5 ? (size_t) argi(5) : 0;
     Buf b = buf_alloc(n); memcpy(b.p, raw, n); free(raw);
+    g_shift = 0;
     Objects o; memset(&o, 0, sizeof o);
     int sl;
     int ok = do_unmarshal(kind, o, b.p, n, c, checked, &sl);
@@ -335,6 +339,37 @@ static void cmd_unm(void) {
         buf_free(b3);
     }
     buf_free(b); free_objects(o);
+}
+
+// unmseq kind c K chk1 hex1 ... chkK hexK : K unmarshals one after another into the SAME destination objects (as a caller that
+// retries after a rejected buffer does); the last result must equal what a fresh destination gives for the last buffer
+static void cmd_unmseq(void) {
+    int kind = kind_of(arg(1)); bool c = argi(2) != 0; int K = (int) argi(3);
+    Objects o; memset(&o, 0, sizeof o);
+    printf(" acc=");
+    int last = -9; size_t ln = 0; uint8_t* lraw = NULL; bool lchk = false;
+    for (int i = 0; i < K; i++) {
+        bool chk = argi(4 + 2 * i) != 0;
+        size_t n; uint8_t* raw = unhex_var(arg(5 + 2 * i), &n);
+        Buf b = buf_alloc(n); memcpy(b.p, raw, n);
+        int sl; last = do_unmarshal(kind, o, b.p, n, c, chk, &sl);
+        printf("%s%d", i ? "," : "", last);
+        buf_free(b);
+        if (i == K - 1) { lraw = raw; ln = n; lchk = chk; } else free(raw);
+    }
+    Objects f; memset(&f, 0, sizeof f);
+    Buf b = buf_alloc(ln); memcpy(b.p, lraw, ln); free(lraw);
+    int sl; int fr = do_unmarshal(kind, f, b.p, ln, c, lchk, &sl);
+    bool same = fr == last && (fr != 1 || (objects_equal(kind, o, f) && objects_equal(kind, f, o)));
+    bool pairing_ok = true;
+    if (fr == 1 && last == 1 && kind == WPARAMS) {
+        // the stored pairing value is e(g2, g1) whatever the destination held before
+        Fq12 e; G1Affine a; G2Affine q; a.from_projective(*(const G1*) &o.wp.g2); q.from_projective(*(const G2*) &o.wp.g1);
+        pairing(e, a, q);
+        pairing_ok = Fq12::equal(e, *(const Fq12*) &o.wp.pairing);
+    }
+    printf(" fresh=%d same=%d pairing=%d", fr, (int) same, (int) pairing_ok);
+    buf_free(b); free_objects(o); free_objects(f);
 }
 
 static void cmd_lq(void) {
@@ -479,6 +514,7 @@ int main(int argc, char** argv) {
         fflush(stdout);
         if (!strcmp(op, "gen")) cmd_gen();
         else if (!strcmp(op, "unm")) cmd_unm();
+        else if (!strcmp(op, "unmseq")) cmd_unmseq();
         else if (!strcmp(op, "lq")) cmd_lq();
         else if (!strcmp(op, "fieldguard")) cmd_fieldguard();
         else if (!strcmp(op, "lens")) cmd_lens();
